@@ -55,7 +55,40 @@ def isnan(kind, v):
         return (v & 0x7f800000) == 0x7f800000 and (v & 0x7fffff) != 0
     if kind == 'd':
         return (v & 0x7ff0000000000000) == 0x7ff0000000000000 and (v & 0xfffffffffffff) != 0
+    if kind == 'l':      # x87 extended: exponent all ones, fraction (below the integer bit) non-zero
+        return ((v >> 64) & 0x7fff) == 0x7fff and (v & ((1 << 63) - 1)) != 0
     return False
+
+
+LDCONV = ('I2LD', 'UI2LD', 'F2LD', 'D2LD', 'LD2F', 'LD2D', 'LD2I')   # Mir/DocSpecLD.v gives these a Coq meaning
+
+
+def place_value(c, e, d, kind, mask, flag, strict_ld_nan=True):
+    """enter the documented value d (kind, defined bits mask) of case c into expectation e: result register (block
+    [96..), function result for integers) or memory destination; returns the oracle request for the stored bytes or None"""
+    nan = isnan(kind, d) and not (kind == 'l' and strict_ld_nan)
+    if c['dst']['kind'] in ('m', 'X'):
+        inplace = c['dst']['kind'] == 'X'        # the destination is the memory operand x itself
+        dty = c['x']['ty'] if inplace else c['dst']['ty']
+        c['dst_off'] = 128 if inplace else 192
+        if inplace:
+            e['init'] = {128 + i: b for i, b in enumerate(G.le_bytes(c['x']['val'], 16))}
+        if nan:
+            e['nan'] = (c['dst_off'], kind)
+        if kind == 'i' and mask == 0xffffffff and G.TYPE_SIZE[dty] == 8:
+            e['dontcare'] |= set(range(c['dst_off'] + 4, c['dst_off'] + 8))   # upper half of a 32-bit result is undefined
+        return 'st %s %x' % (dty, d)
+    size = G.KIND_SIZE[kind]
+    for i, b in enumerate(G.le_bytes(d, size)):
+        e['writes'][96 + i] = b
+    if kind == 'i' and mask == 0xffffffff:
+        e['dontcare'] |= set(range(100, 104))
+    if nan:
+        e['nan'] = (96, kind)
+    if flag is None and kind == 'i':
+        e['ret'] = d
+        e['retmask'] = mask
+    return None
 
 
 def expectations(cases, infos, oracle):
@@ -154,30 +187,10 @@ def expectations(cases, infos, oracle):
                     writes[240 + i] = b
         if d is not None:
             c['d'] = d
-            kind = info.res
-            if c['dst']['kind'] in ('m', 'X'):
-                inplace = c['dst']['kind'] == 'X'        # the destination is the memory operand x itself
-                dty = c['x']['ty'] if inplace else c['dst']['ty']
-                c['dst_off'] = 128 if inplace else 192
-                if inplace:
-                    e['init'] = {128 + i: b for i, b in enumerate(G.le_bytes(c['x']['val'], 16))}
-                streq.append('st %s %x' % (dty, d))
+            rq = place_value(c, e, d, info.res, mask, flag)
+            if rq is not None:
+                streq.append(rq)
                 stwhere.append(c)
-                if isnan(kind, d):
-                    e['nan'] = (c['dst_off'], kind)
-                if kind == 'i' and mask == 0xffffffff and G.TYPE_SIZE[dty] == 8:
-                    e['dontcare'] |= set(range(c['dst_off'] + 4, c['dst_off'] + 8))   # upper half of a 32-bit result is undefined
-            else:
-                size = G.KIND_SIZE[kind]
-                for i, b in enumerate(G.le_bytes(d, size)):
-                    writes[96 + i] = b
-                if kind == 'i' and mask == 0xffffffff:
-                    e['dontcare'] |= set(range(100, 104))
-                if isnan(kind, d):
-                    e['nan'] = (96, kind)
-                if flag is None and kind == 'i':
-                    e['ret'] = d
-                    e['retmask'] = mask
         c['exp'] = e
     preq = []
     for c in presscases:
@@ -206,6 +219,29 @@ def expectations(cases, infos, oracle):
         hx = a.split()[1]
         for i in range(0, len(hx), 2):
             c['exp']['writes'][c['dst_off'] + i // 2] = int(hx[i:i + 2], 16)
+    # conversions from / to long double: documented value from Mir/DocSpecLD.v (exact x87 extended format in Flocq); the
+    # case stays 'nodoc' for users that only know DocSpec.doc_sem, the expectation is attached as c['ldexp']
+    ldc = [c for c in cases if c['exp'] == 'nodoc' and c['op'] in LDCONV and not c.get('pre') and not c.get('post') and not c.get('press')]
+    streq, stwhere = [], []
+    for c, a in zip(ldc, oracle.ask(['ldsem %d %s' % (c['info'].num, ' '.join('%x' % v for v in c['args'])) for c in ldc])):
+        w = a.split()
+        if w[0] != 'S':
+            continue
+        d = int(w[1], 16)
+        e = dict(ret=0, retmask=G.M64, writes={}, nan=None, dontcare=set())
+        c['d'] = d
+        rq = place_value(c, e, d, c['info'].res, c['info'].mask, None, strict_ld_nan=False)
+        if c['info'].res == 'l':     # bytes 10..15 of a 16-byte long double slot are padding
+            off = c['dst_off'] if rq is not None else 96
+            e['dontcare'] |= set(range(off + 10, off + 16))
+        c['ldexp'] = e
+        if rq is not None:
+            streq.append(rq)
+            stwhere.append(c)
+    for c, a in zip(stwhere, oracle.ask(streq)):
+        hx = a.split()[1]
+        for i in range(0, len(hx), 2):
+            c['ldexp']['writes'][c['dst_off'] + i // 2] = int(hx[i:i + 2], 16)
     return allcases
 
 
@@ -216,9 +252,9 @@ class _SpecialInfo:
 SPECIAL_INFO = _SpecialInfo()
 
 
-def check_obs(c, obs):
+def check_obs(c, obs, e=None):
     """obs = (ret, changes) of one engine; returns None if it matches the expectation else a text"""
-    e = c['exp']
+    e = e or c['exp']
     ret, ch = obs
     if (ret ^ e['ret']) & e['retmask']:
         return 'returns %x, documented %x (mask %x)' % (ret, e['ret'], e['retmask'])
@@ -699,6 +735,25 @@ def correspond(chk, exe, oracle, infos, lines):
             continue
         if 'crash' in r:
             bad.append((c, 'crash', r['crash']))
+            continue
+        if c['exp'] == 'nodoc' and c.get('ldexp') is not None:
+            # conversion from / to long double: Mir/DocSpecLD.v; the host compiler's result is compared too, for the record
+            chk.dist('oracle', 'docspec-ld')
+            wrong = []
+            for e in ENGINES:
+                tok = r.get(e)
+                obs = G.parse_obs(tok) if tok else None
+                m = 'engine error: %s' % tok if obs is None else check_obs(c, obs, c['ldexp'])
+                if m:
+                    wrong.append((e, m))
+            if wrong:
+                bad.append((c, ','.join(e for e, _ in wrong), '; '.join('%s: %s' % x for x in wrong)))
+            nat = G.parse_obs(r['native']) if r.get('native') else None
+            if nat is not None:
+                m = check_obs(c, nat, c['ldexp'])
+                chk.dist('ld_host_compiler_vs_docspec', 'differ' if m else 'agree')
+                if m and len(chk.cov.setdefault('ld_host_compiler_differs', [])) < 6:
+                    chk.cov['ld_host_compiler_differs'].append('%s: %s' % (c['line'], m))
             continue
         if c['exp'] == 'nodoc':
             # long double: no Coq semantics; independent oracle = the host compiler's own long double
